@@ -8,12 +8,23 @@ CFG = {
             "retry",
             400,
             6000
+        ],
+        [
+            "retryopts",
+            300,
+            4000
         ]
     ],
-    "rule": "canretry: the full table 7 policies x 256 codes x {system, net.Error, other}; retry: random scripts (policy, MaxAttempts in {0,1,2,3,5,7,10}, outcome list with position of first success, peers marked per attempt, optional per-attempt timeout) run through the real Channel.RunWithRetry; retry-avoid: real sub-channel peer lists of 1..6 peers. Non-trivial = more than one attempt (retry), more than one peer (avoid), every table point; distinct by input.",
+    # subs whose model output is proved equal to the documented specification (C17_table,
+    # C17_errcode, C17_table_shapes, C17_options + C17_builder_path + C17_stop_builder):
+    # an implementation that disagrees with the model there is a concrete failing input
+    "spec_subs": {"canretry": [], "errcode": [], "canretrys": [], "retrycb": []},
+    "rule": "errcode / canretrys: getErrCode and CanRetry on every error shape family (nil, plain, plain wrapping net.Error, 4 net.Error flavours, SystemError of each of the 256 codes wrapping net.Error timeout / non-timeout / plain / nil / OpError / DeadlineExceeded / plain-wrapping-net, SystemError wrapping SystemError, random nesting to depth 3) x 7 policies; retrycb: random ContextBuilder setter sequences (0..6 calls of SetRetryOptions(nil | fresh struct | a struct passed before) and SetTimeoutPerAttempt, MaxAttempts in {0,1,2,3,5,7,10}, 6 policies, 5 per-attempt timeouts, contexts without TChannel parameters) -> Build -> real getRetryOptions and real Channel.RunWithRetry with scripted outcomes of every shape; non-trivial = at least two setter calls or two attempts. canretry: the full table 7 policies x 256 codes x {system, net.Error, other}; retry: random scripts (policy, MaxAttempts in {0,1,2,3,5,7,10}, outcome list with position of first success, peers marked per attempt, optional per-attempt timeout) run through the real Channel.RunWithRetry; retry-avoid: real sub-channel peer lists of 1..6 peers. Non-trivial = more than one attempt (retry), more than one peer (avoid), every table point; distinct by input.",
     "trusted_base": COMMON_TRUSTED + [
-        "modelled by hand (tied by correspondence): RunWithRetry loop, getRetryOptions, AddSelectedPeer, getHost; regenerated from source each run: CanRetry, getErrCode, GetSystemErrorCode, RetryOn/ErrCode constants, defaultRetryOptions.MaxAttempts",
-        "abstraction: a Go error is seen as (nil?, SystemError? with code, net.Error?)"
+        "modelled by hand (tied by correspondence): RunWithRetry loop, AddSelectedPeer, getHost, NewContextBuilder leaving RetryOptions nil, getTChannelParams (context lookup); regenerated from source each run: CanRetry, getErrCode, isNetError, GetSystemErrorCode, SystemError.Code/Wrapped, ContextBuilder.SetRetryOptions / SetTimeoutPerAttempt, the retryOptions entry of Build, getRetryOptions, the RetryOptions struct and defaultRetryOptions, RetryOn/ErrCode constants",
+        "abstraction: a Go error is seen as its shape under type assertions (nil | SystemError code wrapping shape | net.Error | other error wrapping shape); the older loop model sees (nil?, SystemError? with code, net.Error?), proved a refinement",
+        "abstraction: a *RetryOptions is seen by value (nil = None): a struct shared between holders and mutated after Build is not represented; the engine takes the struct's content at each SetRetryOptions call and builds the context after the last setter",
+        "go2v hints of the options targets: cb.RetryOptions / params.retryOptions are state variables, params == nil <-> the context carries no TChannel parameters, defaultRetryOptions = the generated record"
 ],
     "assumptions": [
         "sub-channel avoidance clause is decided by C15's theorems on PeerList.Get; here it is exercised by the oracle only",
